@@ -84,23 +84,25 @@ def render(s, unknown=None, cdef=False):
     for n in PO + PK + KO:
         w.append("D_{0} = Obj('D_{0}')\n".format(n))
     # cdef: the contract callables declare *defaults* for the parameters they ask for; the call's value must win
-    dflt = "=WRONG" if cdef else ""
+    # cdef: False | True (defaults) | "kwonly" (the contract callables declare the names as KEYWORD-ONLY parameters) | "kwonly_default"
+    dflt = "=WRONG" if cdef in (True, "kwonly_default") else ""
+    star = "*, " if cdef in ("kwonly", "kwonly_default") else ""
     w.append("WRONG = Obj('WRONG')\n")
     for n in named:
-        w.append("def c_{0}({0}{1}):\n    LOG.append(('pre', '{0}', id({0})))\n    return True\n".format(n, dflt))
+        w.append("def c_{0}({2}{0}{1}):\n    LOG.append(('pre', '{0}', id({0})))\n    return True\n".format(n, dflt, star))
     w.append("def c_args(_ARGS):\n    LOG.append(('args', type(_ARGS).__name__, tuple(id(v) for v in _ARGS)))\n    return True\n")
     w.append("def c_kwargs(_KWARGS):\n    LOG.append(('kwargs', type(_KWARGS).__name__, tuple(sorted((k, id(v)) for k, v in _KWARGS.items()))))\n    return True\n")
-    allp = ", ".join(n + dflt for n in named)
+    allp = star + ", ".join(n + dflt for n in named)
     dct = "{" + ", ".join("'{0}': id({0})".format(n) for n in named) + "}"
     if named:
         w.append("def cap({}):\n    LOG.append(('cap', {}))\n    return R\n".format(allp, dct))
     else:
         w.append("def cap():\n    LOG.append(('cap', {}))\n    return R\n")
     w.append("def q({}):\n    LOG.append(('post', {}, id(result), id(OLD.snap)))\n    return T['q']\n".format(
-        ", ".join(["result", "OLD"] + [n + dflt for n in named]), dct))
+        ", ".join(["result", "OLD"] + (["*"] if star and named else []) + [n + dflt for n in named]), dct))
     w.append("def ef({}):\n    LOG.append(('errfac', {}, id(result), id(OLD.snap), tuple(id(v) for v in _ARGS), "
              "tuple(sorted((k, id(v)) for k, v in _KWARGS.items()))))\n    return Viol('q')\n".format(
-                 ", ".join(["result", "OLD", "_ARGS", "_KWARGS"] + [n + dflt for n in named]), dct))
+                 ", ".join(["result", "OLD", "_ARGS", "_KWARGS"] + (["*"] if star and named else []) + [n + dflt for n in named]), dct))
     if unknown:
         w.append("def c_unknown({0}):\n    LOG.append(('pre_unknown', '{0}', id({0})))\n    return True\n".format(unknown))
     in_class = s["self"] in (True, "cls", "static")
@@ -256,6 +258,9 @@ def items(tier):
         out.append((s, None, False))
         if s["po"] + s["pk"] + s["ko"]:
             out.append((s, None, True))
+            if s["self"] in (False, True) or tier == "thorough":
+                out.append((s, None, "kwonly"))
+                out.append((s, None, "kwonly_default"))
         if s["self"] is False or tier == "thorough":
             out.append((s, "nope", False))
             if s["varkw"]:
